@@ -3,6 +3,21 @@ import Xrl.JGen.Methods
 import Xrl.Gen.Fns
 /-!
 # C19 — the Java methods are observationally equivalent to the C functions (numeric core)
+
+Every `java_eq_c_f` is about the two definitions *generated on every run*: `JGen.f` from java/Xraylib.java (tools/j2lean.py) and
+`Gen.f` from src/*.c (tools/c2lean.py), for every table content `T` (the Java tables are `JTables.ofC T`: what XRayInit reads from the
+xraylib.dat that java/pr_data_java.c writes from `T`), every `int` argument (hypotheses `inI32`), every real argument and every error slot
+that is `NULL` or empty.  The relation `JRel` is defined in JCore/JRel.lean: same value / C error ⇔ `IllegalArgumentException` with the same
+text / both models stop at a non-finite operation / no claim where the C model has undefined behaviour.
+
+Hypotheses that appear:
+* `inI32 (T.N… Z)` — the counts of the tables are C `int`s (they are `int` arrays in C and `int[]` in Java);
+* `KVecOk T Z k` — the Kissel vectors of sub-shell `k` have the length their count says (Java checks subscripts against the count,
+  C against the allocated length);
+* `haw : … = .ok v → 0 < T.AtomicWeight_arr Z` — Java reads `AtomicWeight_arr[Z]` raw where C calls `AtomicWeight` (fails on `≤ 0`): the two
+  differ exactly when a cross section exists for an element without atomic weight — excluded, reported as a latent difference;
+* `hq`, `hEq`, `h92` — the excluding hypotheses of the witnesses W1, W2, W5 of notes/C19M_REPORT.md.
+Full statements that are false are kept as `def …_full : Prop` with the negation proved on a concrete table.
 -/
 set_option linter.unusedSimpArgs false
 set_option linter.unusedVariables false
@@ -984,6 +999,36 @@ theorem java_eq_c_CS_Energy (hN : inI32 (T.NE_Energy Z.toNat)) (h92 : Z > 92 →
    simp only [e1000, e1000_le, zero_lit]
    jeq_auto)
 end energy
+
+/-! ## non-vacuity: the hypotheses of the theorems hold on a concrete table, on which both sides return a value -/
+
+/-- two knots (0, 1) ↦ 1 for the Rayleigh form factor, two-knot Kissel vectors, atomic weight 12 -/
+noncomputable def Tnv : Tables ℝ :=
+  { T0 with Nq_Rayl := fun _ => 2, q_Rayl_arr := fun _ => ⟨2, fun k => (k : ℝ)⟩, FF_Rayl_arr := fun _ => ⟨2, fun _ => 1⟩,
+            FF_Rayl_arr2 := fun _ => ⟨2, fun _ => 0⟩, AtomicWeight_arr := fun _ => 12,
+            NE_Photo_Partial_Kissel := fun _ _ => 2, E_Photo_Partial_Kissel := fun _ _ => ⟨2, fun k => (k : ℝ)⟩,
+            Photo_Partial_Kissel := fun _ _ => ⟨2, fun _ => 1⟩ }
+
+example : inI32 (Tnv.Nq_Rayl (1 : Int).toNat) := by decide
+example : KVecOk Tnv 26 1 := ⟨by decide, rfl, rfl⟩
+example (q : ℝ) : ∀ v, JGen.FF_Rayl (JTables.ofC Tnv) 26 q = .ok v → 0 ≤ Tnv.AtomicWeight_arr (26 : Int).toNat := by
+  intro _ _; show (0 : ℝ) ≤ 12; norm_num
+/-- the C side returns a value on this table (so `java_eq_c_FF_Rayl` says: Java returns the same value) -/
+example : Gen.FF_Rayl Tnv 1 0.5 Slot.empty = Except.ok (1, Slot.empty) := by
+  unfold Gen.FF_Rayl
+  simp [Tnv, rd1, splint, rdv, bisect, splintAt, splintCubic, deq_real]
+  norm_num
+example : JGen.FF_Rayl (JTables.ofC Tnv) 1 0.5 = Except.ok 1 := by
+  have h := java_eq_c_FF_Rayl Tnv 1 (by decide) 0.5 Slot.empty rfl (by decide)
+  have hc : Gen.FF_Rayl Tnv 1 0.5 Slot.empty = Except.ok (1, Slot.empty) := by
+    unfold Gen.FF_Rayl
+    simp [Tnv, rd1, splint, rdv, bisect, splintAt, splintCubic, deq_real]
+    norm_num
+  rw [hc] at h
+  rcases h with ⟨_, h⟩ | ⟨e, h, _⟩
+  · exact h
+  · norm_num at h
+
 
 end C19
 end Xrl
